@@ -34,8 +34,10 @@ m = {"version": 1,
                "enable": "bin/check copies /repo's working tree to /var/tmp/xt-verif.*, appends `#[cfg(kani)] #[path=\"/verif/harness/<module>.rs\"] mod verif_kani;` to the module files of the copy and runs cargo kani there",
                "baseline_off_cmd": "cd /repo && cargo test --workspace --no-fail-fast --offline",
                "source_commits": [], "add_only": True},
-     "engines": [{"name": "kani-cbmc", "path": "lib/xtverif.py", "serves_properties": sorted(claimed),
-                  "kind_free_text": "Kani 0.68 / CBMC 6.11 bounded model checker over the real Rust sources (injection and substitution overlays)"}],
+     "engines": [{"name": "kani-cbmc", "path": "lib/xtverif.py", "serves_properties": sorted(p for p in claimed if C.CLAIMS[p].get("engine") != "xtmir-z3" or p in ("C15", "C16")),
+                  "kind_free_text": "Kani 0.68 / CBMC 6.11 bounded model checker over the real Rust sources (injection and substitution overlays)"},
+                 {"name": "xtmir-z3", "path": "lib/xtmir.py", "serves_properties": sorted(p for p in claimed if p in ("C13", "C14", "C15", "C16")),
+                  "kind_free_text": "own MIR -> SMT symbolic executor (z3 4.8 via z3-solver in the tooling venv) over rustc's -Zunpretty=mir dump of the binary crate"}],
      "checks": checks, "not_applicable": na,
      "notes": "All checks are bounded and solver-decided; see DESIGN.md. Exit 2 = inconclusive (never reported as a pass or as a violation)."}
 json.dump(m, open(os.path.join(ROOT, "MANIFEST.json"), "w"), indent=1)
